@@ -160,6 +160,73 @@ class Check:
 SPURIOUS = []      # models that did not reproduce on the real code (encoding or stub wrong)
 
 
+FIELDS = ("obligations", "discharged", "inconclusive", "samples", "queries", "solver_time", "not_encoded", "violations", "known_hits", "extra")
+
+
+def _run_part(args):
+    """worker: run `fn(ck, item)` on a private Check and return its state"""
+    pid, tier, level, fn, item = args
+    import warnings
+    warnings.filterwarnings("ignore")
+    ck = Check(pid, tier, level)
+    SPURIOUS.clear()
+    try:
+        fn(ck, item)
+        err = None
+    except HarnessError as e:
+        err = f"HarnessError: {e}"
+    except Exception as e:   # noqa: BLE001
+        import traceback
+        err = f"{type(e).__name__}: {e}\n{traceback.format_exc()[-800:]}"
+    st = {k: getattr(ck, k) for k in FIELDS}
+    st["nontrivial"] = [repr(x) for x in ck.nontrivial]
+    st["functions"] = sorted(ck.functions)
+    st["spurious"] = list(SPURIOUS)
+    st["error"] = err
+    return st
+
+
+def run_parallel(ck, fn, items, jobs=None):
+    """run fn(ck_i, item) for every item in forked worker processes and merge the results into ck.
+    (every worker rebuilds its encodings from /repo; nothing is shared but the code)"""
+    import multiprocessing
+    jobs = jobs or min(JOBS, max(1, len(items)))
+    args = [(ck.pid, ck.tier, ck.level, fn, it) for it in items]
+    if jobs == 1 or len(items) <= 1:
+        parts = [_run_part(a) for a in args]
+    else:
+        with multiprocessing.get_context("fork").Pool(jobs) as pool:
+            parts = pool.map(_run_part, args, chunksize=1)
+    seen_known = {k for k, _ in ck.known_hits}
+    for it, st in zip(items, parts):
+        if st["error"]:
+            raise HarnessError(f"worker for {it} failed: {st['error']}")
+        ck.obligations += st["obligations"]
+        ck.discharged += st["discharged"]
+        ck.inconclusive += st["inconclusive"]
+        ck.samples += st["samples"]
+        ck.queries += st["queries"]
+        ck.solver_time += st["solver_time"]
+        ck.not_encoded.update(st["not_encoded"])
+        ck.violations += st["violations"]
+        for k, w in st["known_hits"]:
+            if repr(k) not in seen_known:
+                seen_known.add(repr(k))
+                ck.known_hits.append((k, w))
+        for k, v in st["extra"].items():
+            if isinstance(v, (int, float)) and isinstance(ck.extra.get(k, 0), (int, float)):
+                ck.extra[k] = ck.extra.get(k, 0) + v
+            elif isinstance(v, dict):
+                ck.extra.setdefault(k, {}).update(v)
+            elif isinstance(v, list):
+                ck.extra.setdefault(k, []).extend(v)
+            else:
+                ck.extra[k] = v
+        ck.nontrivial |= set(st["nontrivial"])
+        ck.functions |= set(st["functions"])
+        SPURIOUS.extend(st["spurious"])
+
+
 def spurious(pid, what):
     """A solver model that does not reproduce on the real code: the encoding misrepresents the code.
     Recorded; the run continues (a *confirmed* violation elsewhere still counts), and ends with the
